@@ -16,8 +16,13 @@ import tempfile
 import time
 from multiprocessing import Pool
 
+import warnings
+
 from .core import DEFAULT_ROOT, run_property
-from .mutants import MUTANTS
+
+with warnings.catch_warnings():
+    warnings.simplefilter("ignore", SyntaxWarning)
+    from .mutants import MUTANTS
 
 SKIP = {"tests", "fuzzing", "__pycache__"}
 
